@@ -62,7 +62,7 @@ def required(tier):
               'oneshot:ragged-length': 30, 'oneshot:cache-on': 30, 'oneshot:single-window': 5,
               'compose:exhaustive': 60, 'compose:sampled': 10, 'compose:starts-with-one-window': 200,
               'script:objects>=2': 60, 'script:same-config': 20, 'script:mixed-config': 20,
-              'script:reset-mid-stream': 30, 'script:uncached-mid-stream': 60})
+              'script:reset-mid-stream': 30, 'script:uncached-mid-stream': 60, 'script:read-only-helper-mid-stream': 60})
     if tier == 'thorough':
         b['branches:>=512'] = 50
     return {'buckets': b,
@@ -171,8 +171,11 @@ def gen_cases(seed, tier):
                     w = 1 if rng.random() < 0.4 else int(rng.integers(2, 5))
                     ops.append([o, 'feed', w])
                     fed[o] += 1
-                elif r < 0.82:
+                elif r < 0.78:
                     ops.append([o, 'peek', int(rng.integers(1, 4)), int(rng.integers(0, 2))])
+                elif r < 0.86:
+                    # the object's read-only helpers used mid-stream: frequency response (plain / tiled), unit-noise estimate
+                    ops.append([o, 'helper', int(rng.integers(0, 3)), int(rng.integers(1, 4))])
                 else:
                     ops.append([o, 'reset'])
             for o in range(nobj):                     # every object ends with a seam after whatever came before
@@ -648,6 +651,22 @@ def run_script(c, ctx):
             stream[o_idx], emitted[o_idx], lost[o_idx] = None, 0, False
             outputs.append(None)
             continue
+        if what == 'helper':
+            R.bucket('script:read-only-helper-mid-stream' if stream[o_idx] is not None else 'script:read-only-helper-before-stream')
+            cache_before = None if fb.cache is None else np.array(fb.cache, copy=True)
+            with common.quiet():
+                if op[2] == 0:
+                    ctx.call(fb.get_response, fftlength=2 * op[3] * M)
+                elif op[2] == 1:
+                    ctx.call(fb.tile_response, 2, fftlength=2 * op[3] * M)
+                else:
+                    ctx.call(fb.estimate_channelized_stds, factor=3 * M + op[3], seed=7)
+            R.check(np.array_equal(np.asarray(fb.window, dtype=np.float64), h), 'read-only-helper-changed-the-window', helper=op[2], M=M, P=P)
+            same_cache = (fb.cache is None) if cache_before is None else \
+                (fb.cache is not None and np.array_equal(np.asarray(fb.cache), cache_before))
+            R.check(same_cache, 'read-only-helper-touched-cache', helper=op[2], M=M, P=P)
+            outputs.append(None)
+            continue
         d = data[t]
         is_c = np.iscomplexobj(d)
         if what == 'peek':
@@ -720,6 +739,8 @@ def run_script(c, ctx):
                     continue
                 if op[1] == 'reset':
                     fb._reset_cache()
+                    continue
+                if op[1] == 'helper':
                     continue
                 o = np.asarray(ctx.call(fb.channelize, data[t].copy(), cache=(op[1] == 'feed')))
                 got = outputs[t]
